@@ -125,6 +125,28 @@ def run(ctx):
                                   "%s %s with the string value %r is %s on parse -> print -> parse; printed as %r" % (ot.upper(), it.key.upper(), w, what, shown),
                                   {"text": text, "printed": shown})
     ctx.count("string_slot_roundtrips", n_str)
+    # ---- directed: awkward number spellings (tiny / huge magnitudes, many digits, exponents) in scalar, list and pair slots:
+    # the value read back must be the SAME number, not a rounded one
+    n_num = 0
+    for w in ("0.000012345678", "1.5e-10", "4e-12", "1e-05", "2.5e-07", "-0.00000000001234", "123456789012.5", "1e+20", "1e16",
+              "0.1", "-7.000000000001", "12345678901234567890", "3.141592653589793", "5e-324", "1.7976931348623157e308"):
+        for tpl in ("LAYER TOLERANCE %s END", "LAYER MAXSCALEDENOM %s END", "STYLE WIDTH %s END", "STYLE OFFSET %s 2 END", "MAP EXTENT %s 0 1 1 END",
+                    "SYMBOL POINTS %s 1 1 %s END END", "STYLE PATTERN %s 2 END END", "LAYER FEATURE POINTS 1 %s END END END", "LABEL SIZE %s END"):
+            text = tpl.replace("%s", w)
+            try:
+                d = sweep.fast_loads(text)
+            except Exception:
+                continue
+            if rt.excluded(d):
+                continue
+            n_num += 1
+            ctx.note_case(("numspelling", tpl, w))
+            r = rt.roundtrip_failure(d, sweep.fast_loads, pp.pprint)
+            if r:
+                sym = rt.slot_symptom(d)
+                ctx.violation(("printed-text-rejected:" if r[0] == "rejected" else "roundtrip:") + sym + ":number-spelling",
+                              "the number %s in %r does not survive parse -> print -> parse: %r" % (w, text, r[:2]), {"text": text, "printed": r[2]})
+    ctx.count("number_spelling_roundtrips", n_num)
     # ---- a keyword typed number-or-string, carrying the number N in one block and the string "N" in the next
     # (one document, one printer: the two must not be confused)
     n_mix = 0
